@@ -321,6 +321,44 @@ struct Worker {
         }
         break;
       }
+      case GUARD_REFRESH: {
+        // the refresh idiom: assign a newly created guard over the live one (the thread still has one guard afterwards)
+        if (mgr == nullptr || !has_guard) {
+          X->out.skipped++;
+          break;
+        }
+        g.alive[me] = false;  // the old guard instance ends; until the new one is registered nothing is claimed
+        if (list != nullptr) {
+          if (*list != snap) report("LIST-STABLE", "the list handed out with the guard (epoch " + s(g.epoch[me]) + ") changed while the guard was alive");
+          list = nullptr;
+        }
+        g.pin_events++;
+        const std::vector<size_t> *lp = nullptr;
+        if (op.a == 0) {
+          guard = mgr->CreateEpochGuard();
+        } else {
+          g.in_getprot[me] = true;
+          auto [gd, l] = mgr->GetProtectedEpochs();
+          g.in_getprot[me] = false;
+          guard = std::move(gd);
+          lp = &l;
+        }
+        const size_t e = guard.GetProtectedEpoch();
+        if (e == std::numeric_limits<size_t>::max()) {
+          report("GUARD-UNPINNED", "a guard refreshed by move assignment from a newly created guard is alive but reports no protected epoch");
+          // the thread believes it is protected: keep the ghost claim at the epoch that was current, so the coordinator judges it
+        }
+        g.epoch[me] = e == std::numeric_limits<size_t>::max() ? mgr->GetCurrentEpoch() : e;
+        g.serial[me]++;
+        g.alive[me] = true;
+        X->out.guards++;
+        if (lp != nullptr && e != std::numeric_limits<size_t>::max()) {
+          list = lp;
+          check_list_shape(*lp, e, "GetProtectedEpochs (refresh)");
+          snap = *lp;
+        }
+        break;
+      }
       case GUARD_MOVE: {
         if (!has_guard) {
           X->out.skipped++;
